@@ -24,7 +24,15 @@ from tpmstream.common.error import (  # noqa: E402
 )
 from tpmstream.common.event import MarshalEvent, WarningEvent  # noqa: E402
 from tpmstream.io.binary import Binary  # noqa: E402
-from tpmstream.io.binary.unmarshal import to_bytes  # noqa: E402
+import importlib  # noqa: E402
+
+_unmarshal_mod = importlib.import_module("tpmstream.io.binary.unmarshal")
+
+
+def to_bytes(event):
+    # looked up at call time so that harness-side contracts on the module global are not bypassed
+    return _unmarshal_mod.to_bytes(event)
+
 from tpmstream.spec.commands import Command, CommandResponseStream, Response  # noqa: E402
 
 DOCUMENTED = (ConstraintViolatedError, InputStreamBytesDepletedError, InputStreamSuperfluousBytesError)
